@@ -1,3 +1,454 @@
-import NunavutVerif.Model.Deps
+import NunavutVerif.Lemmas.Deps
+/-!
+# C06 — generated code builds on its own: the part that is Nunavut's logic
+
+Statement (properties.jsonl): every generated C header compiles on its own as C11 and inside a C++ translation unit, every
+C++ header for each supported standard, every Python module imports, without diagnostics under the project's strict warning
+set; no generated file refers to a header or module that generating the involved namespaces does not produce.
+
+What is proved here, over **all** type shapes (`Top`, `Comp`, `Ty` — any nesting, any number of fields) and **all**
+option sets (`Opts`), for the code with the proposed `fix:` commits (`Model/Deps.lean`):
+
+1. *closure*: every project-relative include of a generated C / C++ header is `make_path` of a direct dependency — the
+   same function that names the file written for that type (`Namespace.outputPath`, C11) — or a serialization-support
+   header that is generated unless omitted; direct ⊆ transitive ⊆ the types below the type, which the front end has read
+   (`Closed`); every Python `import` is the package of a direct dependency, every other module a generated Python
+   module imports exists;
+2. *facility coverage*: for every facility the emitted text uses (`facMust`) or may use (`facMay`) there is an emitted
+   include that provides it (`provides`), with serialization enabled **and** omitted;
+3. *names*: include guards decode uniquely into (macrofied name, major, minor); C++ namespace brackets balance.
+
+The unchanged code violated 1 (Python, omitted support) and 2 (C with omitted support; non-sealed unions and services
+with unions in C++17; unions in C++14, fixed port-IDs in C++ with omitted support): the negations are proved on
+witnesses below (`…BeforeFix`), the harness replays them with the compilers.
+
+Partial by nature (DESIGN §4 C06): that a header with the right includes and names draws no diagnostic at all is the
+compilers' judgement (harness/c06.py); `facMust/facMay` and `provides` are hand-written from the templates and the
+language standards and tied to every generated header by a token scan.  The C++ coverage theorem needs
+`use_standard_types` (with it off the C++ templates still spell `std::array`, `std::bitset`, `std::uintN_t` but include
+nothing — an observation, not covered) and the two option-given includes to be non-empty when the options that use
+them are on.  Include guards of different types can coincide because `macrofy` is not injective
+(`guard.FooBar.1.0` / `guard.foo.Bar.1.0`): known finding, `C06_include_guards_distinct` carries injectivity as hypothesis.
+-/
 namespace NunavutVerif.Deps
+open NunavutVerif.Namespace (Str Path PathR Err makePath asPosix includePath outputPath basePath pathJoin shortVer)
+
+/-! ## 1. closure -/
+
+/-- T1a: `direct()` is contained in `transitive()`: the names and every flag. -/
+theorem C06_direct_le_transitive (t : Top) : (direct t).Le (transitive t) := by
+  rw [direct, transitive, buildMany_single, buildMany_single]
+  exact extractList_false_le_true _ (Deps.Le.refl _)
+
+/-- T1b: whatever the builder collects (either mode, either union test) is a composite below the type. -/
+theorem C06_collected_names_are_below (u : Top → Bool) (tr : Bool) (t : Top) :
+    ∀ n ∈ (buildMany u tr [t]).names, n ∈ t.reach := by
+  intro n hn
+  rw [buildMany_single] at hn
+  rcases extractList_names tr _ _ n hn with h | h
+  · split at h <;> simp at h
+  · exact h
+
+/-- The front end resolves every reference to a definition it has read: a set of top-level types is *closed* when every
+composite below one of them is (by name) one of the message types of the set. -/
+def Closed (U : List Top) : Prop := ∀ t ∈ U, ∀ n ∈ t.reach, ∃ t' ∈ U, t'.name = n
+
+/-- T1c (C and C++): every `#include` operand of a generated header is a standard / option-given header chosen by
+`get_includes` or the template, or a support header (only when support is generated), or the include path of a direct
+dependency `n`; that path is `make_path(n)`, the file written for `n` is `outdir / make_path(n)`, and `n` is a type of
+the closed set — generating its namespace into the same output directory produces exactly that file. -/
+theorem C06_include_closure (lang : Lang) (pcfg : Namespace.Cfg) (o : Opts) (U : List Top) (hU : Closed U)
+    (t : Top) (ht : t ∈ U) (incs : List Str) (h : emitted lang pcfg o t = .ok incs) :
+    ∀ inc ∈ incs,
+      (inc ∈ cStd o (direct t) ++ cOmitBlock o ++ cppGetIncludes o (direct t) ++ [hCstdint])
+      ∨ (o.omitSer = false ∧ ∃ s ∈ o.support, inc = punct o s)
+      ∨ (∃ n ∈ (direct t).names, ∃ rel, includePath pcfg n = .ok rel ∧ inc = punct o (asPosix rel)
+          ∧ outputPath pcfg n = .ok (pathJoin (basePath pcfg) rel)
+          ∧ n ∈ (transitive t).names ∧ ∃ t' ∈ U, t'.name = n) := by
+  intro inc hinc
+  have key : ∀ ps, pathIncludes pcfg o (direct t) = .ok ps → inc ∈ ps →
+      (o.omitSer = false ∧ ∃ s ∈ o.support, inc = punct o s)
+      ∨ (∃ n ∈ (direct t).names, ∃ rel, includePath pcfg n = .ok rel ∧ inc = punct o (asPosix rel)
+          ∧ outputPath pcfg n = .ok (pathJoin (basePath pcfg) rel)
+          ∧ n ∈ (transitive t).names ∧ ∃ t' ∈ U, t'.name = n) := by
+    intro ps hps hp
+    rcases pathIncludes_mem hps hp with h1 | ⟨n, hn, rel, hrel, hinc'⟩
+    · exact Or.inl h1
+    · refine Or.inr ⟨n, hn, rel, hrel, hinc', ?_, (C06_direct_le_transitive t).names n hn, ?_⟩
+      · simp only [outputPath, hrel]
+      · exact hU t ht n (C06_collected_names_are_below _ _ t n hn)
+  cases lang with
+  | c =>
+    obtain ⟨ps, hps, hmem⟩ := emitted_c_inv h
+    rcases (hmem inc).mp hinc with hp | hp | hp
+    · exact Or.inr (key ps hps hp)
+    · exact Or.inl (by simp [hp])
+    · exact Or.inl (by simp [hp])
+  | cpp =>
+    obtain ⟨ps, l, hps, hmem, rfl⟩ := emitted_cpp_inv h
+    rcases List.mem_append.mp hinc with hl | hb
+    · rcases (hmem inc).mp hl with hp | hp
+      · exact Or.inr (key ps hps hp)
+      · exact Or.inl (by simp [hp])
+    · simp only [cppPortBlock] at hb
+      split at hb
+      · simp at hb; exact Or.inl (by simp [hb])
+      · simp at hb
+  | py => simp [emitted] at h; subst h; simp at hinc
+
+/-- T1d (Python): every `import` emitted by `filter_imports` is the dotted, component-wise stropped namespace of a
+composite that is a field type or the element type of an array field, i.e. of a direct dependency below the type. -/
+theorem C06_py_imports_are_dependency_packages (strop : Str → Str) (enable : Bool) (t : Top) :
+    ∀ imp ∈ pyImports strop enable t, ∃ c : Comp,
+      (Ty.comp c ∈ t.dataTypes ∨ Ty.fixedArr (.comp c) ∈ t.dataTypes ∨ Ty.varArr (.comp c) ∈ t.dataTypes)
+      ∧ imp = joinDots (if enable then c.name.ns.map strop else c.name.ns) := by
+  intro imp himp
+  simp only [pyImports, mem_sortS, List.mem_map] at himp
+  obtain ⟨ns, hns, rfl⟩ := himp
+  have hmem : ∀ (l : List (List Str)) x, x ∈ dedupFirst l → x ∈ l := by
+    intro l x hx
+    have aux : ∀ (m : List (List Str)) y, y ∈ dedup m → y ∈ m := by
+      intro m
+      induction m with
+      | nil => intro y hy; simpa [dedup] using hy
+      | cons a as ih =>
+        intro y hy
+        simp only [dedup] at hy
+        split at hy
+        · exact List.mem_cons_of_mem _ (ih y hy)
+        · rcases List.mem_cons.mp hy with hy | hy
+          · exact hy ▸ List.mem_cons_self ..
+          · exact List.mem_cons_of_mem _ (ih y hy)
+    have := aux l.reverse x (by simpa [dedupFirst] using hx)
+    simpa using this
+  have h2 := hmem _ ns hns
+  simp only [List.mem_map, List.mem_append, List.mem_filterMap] at h2
+  obtain ⟨c, hc, rfl⟩ := h2
+  refine ⟨c, ?_, rfl⟩
+  rcases hc with ⟨ty, hty, hsome⟩ | ⟨ty, hty, hsome⟩
+  · cases ty <;> simp at hsome
+    subst hsome; exact Or.inl hty
+  · split at hsome <;> simp at hsome
+    · subst hsome; exact Or.inr (Or.inl hty)
+    · subst hsome; exact Or.inr (Or.inr hty)
+
+/-- T1e (Python): every other module a generated module imports is there: the support module is written unless
+omitted and is imported only then; NumPy / PyDSDL are the documented requirements; `warnings` is the standard library. -/
+theorem C06_py_module_imports_available (o : Opts) (deprecated : Bool) :
+    ∀ m ∈ pyModuleImports o deprecated, m ∈ pyAvailable o := by
+  intro m hm
+  simp only [pyModuleImports, pyAvailable, List.mem_append] at hm ⊢
+  rcases hm with (hm | hm) | hm
+  · exact Or.inl hm
+  · simp at hm; rcases hm with hm | hm | hm <;> simp [hm]
+  · split at hm <;> simp at hm; simp [hm]
+
+/-! ## 2. facility coverage -/
+
+/-- What the options have to deliver for the C++ target: standard types in use; the allocator include is given when the
+allocator-aware constructors are emitted; the VLA include is given when a variable-length array occurs; a support header
+exists when support is not omitted. -/
+structure OptsOkCpp (o : Opts) (t : Top) : Prop where
+  useStd : o.useStd = true
+  alloc : o.allocCtor = true → o.allocInc ≠ []
+  vla : (direct t).usesVla = true → o.vlaInc ≠ []
+  support : o.omitSer = false → o.support ≠ []
+
+/-- T2 (C): for every type shape and every option set — serialization enabled or omitted, `use_standard_types` on or
+off — every facility the generated C header uses or may use is provided by one of its own `#include`s. -/
+theorem C06_facilities_covered_c (pcfg : Namespace.Cfg) (o : Opts) (t : Top) (hs : o.omitSer = false → o.support ≠ [])
+    (incs : List Str) (h : emitted .c pcfg o t = .ok incs) :
+    ∀ f ∈ facilities .c o t, covered .c o incs f = true := by
+  intro f hf
+  obtain ⟨ps, hps, hmem⟩ := emitted_c_inv h
+  -- which kind of facility is it
+  have hk : cDefKinds f ∨ (o.omitSer = false ∧ (cDefKinds f ∨ f ∈ serFac .c)) := by
+    simp only [facilities, facMust, facMay, List.mem_append, List.mem_flatMap] at hf
+    rcases hf with (⟨c, _, hc⟩ | hf) | hf
+    · exact Or.inl (cCompFac_kinds o c f hc)
+    · by_cases ho : o.omitSer = true
+      · simp [ho] at hf
+      · simp only [Bool.not_eq_true] at ho
+        refine Or.inr ⟨ho, Or.inr ?_⟩
+        simp [ho] at hf
+        rcases hf with hf | hf | hf | hf | hf <;> simp [serFac, hf]
+    · by_cases ho : o.omitSer = true
+      · simp [ho] at hf
+      · simp only [Bool.not_eq_true] at ho
+        exact Or.inr ⟨ho, Or.inr (by simpa [ho] using hf)⟩
+  by_cases ho : o.omitSer = true
+  · -- support omitted: the block of base.j2
+    have hd : cDefKinds f := by
+      rcases hk with hk | ⟨h1, _⟩
+      · exact hk
+      · simp [ho] at h1
+    have hb : ∀ x, x ∈ cOmitBlock o → x ∈ incs := fun x hx => (hmem x).mpr (Or.inr (Or.inr hx))
+    have hblk : cOmitBlock o = [hAssert, hStdbool, hStddef, hStdint] := by simp [cOmitBlock, ho]
+    rcases hd with hd | hd | hd | hd | hd <;> subst hd
+    · exact covered_of_mem (hb hAssert (by simp [hblk])) (provides_of_std std_assert)
+    · exact covered_of_mem (hb hStdbool (by simp [hblk])) (provides_of_std std_stdbool)
+    · exact covered_of_mem (hb hStdint (by simp [hblk])) (provides_of_std std_stdint)
+    · exact covered_of_mem (hb hStddef (by simp [hblk])) (provides_of_std std_stddef_sizeT)
+    · exact covered_of_mem (hb hStddef (by simp [hblk])) (provides_of_std std_stddef_null)
+  · -- support included: it brings everything
+    simp only [Bool.not_eq_true] at ho
+    obtain ⟨s, hs'⟩ := List.exists_mem_of_ne_nil _ (hs ho)
+    have hin : punct o s ∈ incs := (hmem _).mpr (Or.inl (pathIncludes_support hps ho hs'))
+    have hsup : supportProvides .c f = true := by
+      rcases hk with hk | ⟨_, hk⟩
+      · exact support_c_all f (Or.inl hk)
+      · exact support_c_all f hk
+    exact covered_of_mem hin (provides_of_support ho hs' hsup)
+
+/-- T2 (C++): for every type shape, every language standard and every option set that meets `OptsOkCpp` —
+serialization enabled or omitted — every facility the generated C++ header uses or may use is provided by one of its
+own `#include`s. -/
+theorem C06_facilities_covered_cpp (pcfg : Namespace.Cfg) (o : Opts) (t : Top) (hok : OptsOkCpp o t)
+    (incs : List Str) (h : emitted .cpp pcfg o t = .ok incs) :
+    ∀ f ∈ facilities .cpp o t, covered .cpp o incs f = true := by
+  intro f hf
+  obtain ⟨ps, l, hps, hmem, rfl⟩ := emitted_cpp_inv h
+  have hstd : ∀ n, n ∈ cppStdNames o (direct t) → angle n ∈ l ++ cppPortBlock t.fixedPort l := fun n hn =>
+    List.mem_append.mpr (Or.inl ((hmem _).mpr (Or.inr (mem_cppGetIncludes_std hn))))
+  have hlimits : lit "limits" ∈ cppStdNames o (direct t) := by simp [cppStdNames]
+  have cov_limits : ∀ g, (g = Fac.xLimits ∨ g = Fac.xSizeT) → covered .cpp o (l ++ cppPortBlock t.fixedPort l) g = true := by
+    intro g hg
+    have := hstd _ hlimits
+    rw [angle_limits] at this
+    rcases hg with hg | hg <;> subst hg
+    · exact covered_of_mem this (provides_of_std std_limits_limits)
+    · exact covered_of_mem this (provides_of_std std_limits_sizeT)
+  -- a facility of a field / constant declaration
+  have cov_decl : ∀ ty, ty ∈ t.dataTypes → f ∈ xTyFac o ty → covered .cpp o (l ++ cppPortBlock t.fixedPort l) f = true := by
+    intro ty hty hfty
+    have hflag := direct_flag hty hfty
+    rcases xTyFac_kinds o ty f hfty with hk | hk | hk | hk <;> subst hk
+    · have hn : lit "cstdint" ∈ cppStdNames o (direct t) := by
+        simp only [xFlag] at hflag; simp [cppStdNames, hok.useStd, hflag]
+      have := hstd _ hn; rw [angle_cstdint] at this
+      exact covered_of_mem this (provides_of_std std_cstdint)
+    · have hn : lit "array" ∈ cppStdNames o (direct t) := by
+        simp only [xFlag] at hflag
+        rcases hflag with hflag | hflag <;> simp [cppStdNames, hok.useStd, hflag]
+      have := hstd _ hn; rw [angle_array] at this
+      exact covered_of_mem this (provides_of_std std_array)
+    · have hn : lit "bitset" ∈ cppStdNames o (direct t) := by
+        simp only [xFlag] at hflag; simp [cppStdNames, hok.useStd, hflag]
+      have := hstd _ hn; rw [angle_bitset] at this
+      exact covered_of_mem this (provides_of_std std_bitset)
+    · simp only [xFlag] at hflag
+      have hne := hok.vla hflag
+      have : o.vlaInc ∈ l ++ cppPortBlock t.fixedPort l :=
+        List.mem_append.mpr (Or.inl ((hmem _).mpr (Or.inr (mem_cppGetIncludes_vla hne hflag))))
+      exact covered_of_mem this (provides_vla hne (Or.inl rfl))
+  -- the allocator include
+  have cov_alloc : o.allocCtor = true → (f = .xAlloc ∨ f = .xUtility ∨ f = .xMemory) →
+      covered .cpp o (l ++ cppPortBlock t.fixedPort l) f = true := by
+    intro ha hfa
+    have hne := hok.alloc ha
+    have : o.allocInc ∈ l ++ cppPortBlock t.fixedPort l :=
+      List.mem_append.mpr (Or.inl ((hmem _).mpr (Or.inr (mem_cppGetIncludes_alloc hne))))
+    exact covered_of_mem this (provides_alloc hne hfa)
+  -- the headers of a union
+  have cov_union : ∀ c ∈ t.parts, c.isUnion = true → ∀ n g, angle n = g.1 → stdProvides g.1 f = true →
+      n ∈ (if hasVariant o then [lit "type_traits", lit "variant"] else [lit "memory", lit "new", lit "type_traits", lit "utility"]) →
+      covered .cpp o (l ++ cppPortBlock t.fixedPort l) f = true := by
+    intro c hc hu n g hg hp hn
+    have huu := direct_usesUnion (part_isUnion_definesUnion hc hu)
+    have hn' : n ∈ cppStdNames o (direct t) := by
+      simp only [cppStdNames, List.mem_append]
+      exact Or.inr (by simpa [huu] using hn)
+    have := hstd _ hn'; rw [hg] at this
+    exact covered_of_mem this (provides_of_std hp)
+  -- the support header
+  have cov_support : o.omitSer = false → supportProvides .cpp f = true →
+      covered .cpp o (l ++ cppPortBlock t.fixedPort l) f = true := by
+    intro ho hsp
+    obtain ⟨s, hs'⟩ := List.exists_mem_of_ne_nil _ (hok.support ho)
+    have : punct o s ∈ l ++ cppPortBlock t.fixedPort l :=
+      List.mem_append.mpr (Or.inl ((hmem _).mpr (Or.inl (pathIncludes_support hps ho hs'))))
+    exact covered_of_mem this (provides_of_support ho hs' hsp)
+  simp only [facilities, facMust, facMay, List.mem_append, List.mem_flatMap] at hf
+  rcases hf with (⟨c, hc, hfc⟩ | hf) | (⟨c, hc, hfc⟩ | hf)
+  · -- certainly used by the definition of part `c`
+    simp only [xCompFac, List.mem_append, List.mem_flatMap, List.mem_cons, List.mem_singleton, List.mem_filter] at hfc
+    rcases hfc with ((((hfc | hfc) | hfc) | hfc) | hfc)
+    · rcases hfc with hfc | hfc | hfc
+      · exact cov_limits f (Or.inr hfc)
+      · exact cov_limits f (Or.inl hfc)
+      · simp at hfc
+    · -- the fixed port-ID
+      split at hfc
+      · rename_i hp
+        simp at hfc; subst hfc
+        rw [hp]
+        exact covered_of_mem (cstdint_of_fixedPort l) (provides_of_std std_cstdint)
+      · simp at hfc
+    · rcases hfc with ⟨ty, ⟨hty, _⟩, hfty⟩ | ⟨ty, hty, hfty⟩
+      · exact cov_decl ty (part_fields_dataTypes hc (Or.inl hty)) hfty
+      · exact cov_decl ty (part_fields_dataTypes hc (Or.inr hty)) hfty
+    · -- a union
+      split at hfc
+      · rename_i hu
+        split at hfc
+        · rename_i hv
+          simp at hfc
+          rcases hfc with hfc | hfc <;> subst hfc
+          · exact cov_union c hc hu (lit "variant") (lit "<variant>", ()) angle_variant std_variant (by simp [hv])
+          · exact cov_union c hc hu (lit "type_traits") (lit "<type_traits>", ()) angle_type_traits std_type_traits (by simp [hv])
+        · rename_i hv
+          simp at hfc
+          rcases hfc with hfc | hfc | hfc <;> subst hfc
+          · exact cov_union c hc hu (lit "type_traits") (lit "<type_traits>", ()) angle_type_traits std_type_traits (by simp [hv])
+          · exact cov_union c hc hu (lit "utility") (lit "<utility>", ()) angle_utility std_utility (by simp [hv])
+          · exact cov_union c hc hu (lit "new") (lit "<new>", ()) angle_new std_new (by simp [hv])
+      · simp at hfc
+    · split at hfc
+      · rename_i ha
+        simp at hfc
+        exact cov_alloc ha (Or.inl hfc)
+      · simp at hfc
+  · -- `nunavut::support`
+    by_cases ho : o.omitSer = true
+    · simp [ho] at hf
+    · simp only [Bool.not_eq_true] at ho
+      simp [ho] at hf; subst hf
+      exact cov_support ho support_cpp_self
+  · -- possibly used by the definition of part `c`
+    simp only [xCompMay, List.mem_append] at hfc
+    rcases hfc with hfc | hfc
+    · split at hfc
+      · rename_i hu
+        simp only [Bool.and_eq_true, Bool.not_eq_true'] at hu
+        simp at hfc; subst hfc
+        exact cov_union c hc hu.1 (lit "memory") (lit "<memory>", ()) angle_memory std_memory (by simp [hu.2])
+      · simp at hfc
+    · split at hfc
+      · rename_i ha
+        simp at hfc
+        exact cov_alloc ha (Or.inr (hfc.elim Or.inl Or.inr))
+      · simp at hfc
+  · -- possibly used by the serialization functions
+    by_cases ho : o.omitSer = true
+    · simp [ho] at hf
+    · simp only [Bool.not_eq_true] at ho
+      have hf' : f ∈ serFac .cpp := by simpa [ho] using hf
+      rcases support_cpp_all f hf' with hl | hsp
+      · exact cov_limits f (Or.inl hl)
+      · exact cov_support ho hsp
+
+/-! ### the unchanged code: negations on witnesses -/
+
+section BeforeFix
+def wName (s : String) : TName := ⟨[lit "w"], lit s, 1, 0⟩
+def wCfg : Namespace.Cfg := { strop := id, enable := false, ext := lit ".h", stem := lit "_", outDir := lit "o" }
+def wOpts (omitSer : Bool) (std : Nat) : Opts :=
+  { omitSer := omitSer, useStd := true, std := std, allocInc := [], vlaInc := lit "<vector>", allocCtor := false,
+    preferSys := false, support := [lit "nunavut/support/serialization.h"] }
+/-- `@union float32 a; float64 b; @extent …` — a non-sealed union. -/
+def wDelimitedUnion : Top := .msg (.mk (wName "U") true false [.float, .float] []) false
+/-- A service whose request is a (sealed) union. -/
+def wUnionService : Top := .svc (wName "S") (.mk (wName "S.Request") true true [.int, .int] []) (.mk (wName "S.Response") false true [] []) false
+/-- An empty sealed structure with a fixed port-ID. -/
+def wEmptyFixed : Top := .msg (.mk (wName "E") false true [] []) true
+def wSealedUnion : Top := .msg (.mk (wName "V") true true [.float, .float] []) false
+
+/-- F10b: the outer-object test misses the union inside a `DelimitedType` (and inside a service) … -/
+example : (directBeforeFix wDelimitedUnion).usesUnion = false ∧ (direct wDelimitedUnion).usesUnion = true := by decide
+example : (directBeforeFix wUnionService).usesUnion = false ∧ (direct wUnionService).usesUnion = true := by decide
+/-- … so the C++17 header used `std::variant` without `<variant>`; the fixed include list covers it. -/
+example : ∃ incs, emittedBeforeFix .cpp wCfg (wOpts false 17) wDelimitedUnion = .ok incs ∧
+    Fac.xVariant ∈ facMust .cpp (wOpts false 17) wDelimitedUnion ∧ covered .cpp (wOpts false 17) incs .xVariant = false :=
+  ⟨_, rfl, by decide, by decide⟩
+example : ∃ incs, emitted .cpp wCfg (wOpts false 17) wDelimitedUnion = .ok incs ∧ covered .cpp (wOpts false 17) incs .xVariant = true :=
+  ⟨_, rfl, by decide⟩
+/-- F10a: C with `--omit-serialization-support`: the option `static_assert`s on support-header macros stayed (`cSupport`)
+and nothing provided `static_assert` / `uint8_t`: an empty structure's header did not compile alone. -/
+example : ∃ incs, emittedBeforeFix .c wCfg (wOpts true 0) wEmptyFixed = .ok incs ∧
+    Fac.cSupport ∈ facMustBeforeFix .c (wOpts true 0) wEmptyFixed ∧ covered .c (wOpts true 0) incs .cSupport = false ∧
+    Fac.cStaticAssert ∈ facMust .c (wOpts true 0) wEmptyFixed ∧ covered .c (wOpts true 0) incs .cStaticAssert = false ∧
+    Fac.cFixedInt ∈ facMust .c (wOpts true 0) wEmptyFixed ∧ covered .c (wOpts true 0) incs .cFixedInt = false :=
+  ⟨_, rfl, by decide, by decide, by decide, by decide, by decide, by decide⟩
+/-- C++14 union with omitted support: `std::aligned_storage` without `<type_traits>`. -/
+example : ∃ incs, emittedBeforeFix .cpp wCfg (wOpts true 14) wSealedUnion = .ok incs ∧
+    Fac.xTypeTraits ∈ facMust .cpp (wOpts true 14) wSealedUnion ∧ covered .cpp (wOpts true 14) incs .xTypeTraits = false :=
+  ⟨_, rfl, by decide, by decide⟩
+/-- Fixed port-ID on a type without integer fields, omitted support: `std::uint16_t` without `<cstdint>`. -/
+example : ∃ incs, emittedBeforeFix .cpp wCfg (wOpts true 17) wEmptyFixed = .ok incs ∧
+    Fac.xFixedInt ∈ facMust .cpp (wOpts true 17) wEmptyFixed ∧ covered .cpp (wOpts true 17) incs .xFixedInt = false :=
+  ⟨_, rfl, by decide, by decide⟩
+/-- Python with omitted support imported the support module that is not written. -/
+example : lit "nunavut_support" ∈ pyModuleImportsBeforeFix (wOpts true 0) false ∧ lit "nunavut_support" ∉ pyAvailable (wOpts true 0) := by
+  decide
+end BeforeFix
+
+/-! ### non-vacuity: the hypotheses are met by ordinary inputs -/
+
+example : OptsOkCpp (wOpts false 17) wDelimitedUnion := ⟨rfl, by decide, by decide, by decide⟩
+example : ∃ incs, emitted .cpp wCfg (wOpts true 14) wSealedUnion = .ok incs ∧ incs ≠ [] := ⟨_, rfl, by decide⟩
+/-- A nested type: the include of the dependency is its `make_path`. -/
+example : emitted .c wCfg (wOpts true 0) (.msg (.mk (wName "N") false true [.comp (.mk (wName "D") false true [.bool] [])] []) false)
+    = .ok [lit "\"w/D_1_0.h\"", lit "<stdlib.h>", hAssert, hStdbool, hStddef, hStdint] := by decide
+
+/-! ## 3. names -/
+
+/-- T3a: an include guard decodes uniquely: equal guards (same suffix) have equal macrofied names and versions.  With
+`macrofy` injective on the full names involved, different types have different guards. (`macrofy` is *not* injective
+in general — known finding `include-guard-collision`.) -/
+theorem C06_include_guards_distinct (mac : Str → Str) (full₁ full₂ : Str) (M₁ m₁ M₂ m₂ : Nat) (suffix : Str)
+    (hinj : mac full₁ = mac full₂ → full₁ = full₂)
+    (h : includeGuard (mac full₁) M₁ m₁ suffix = includeGuard (mac full₂) M₂ m₂ suffix) :
+    full₁ = full₂ ∧ M₁ = M₂ ∧ m₁ = m₂ := by
+  simp only [includeGuard] at h
+  have h' := List.append_cancel_right h
+  have := NunavutVerif.Namespace.shortVer_inj h'
+  exact ⟨hinj this.1, this.2.1, this.2.2⟩
+
+/-- Identifier characters: no bracket, no slash, no newline. -/
+def plainName (n : Str) : Prop := ∀ c ∈ n, c ≠ '{' ∧ c ≠ '}' ∧ c ≠ '/' ∧ c ≠ '\n'
+
+theorem depthAfter_plain (n : Str) (hn : plainName n) (rest : Str) (d : Nat) :
+    depthAfter (n ++ rest) d = depthAfter rest d := by
+  induction n with
+  | nil => rfl
+  | cons c cs ih =>
+    have hc := hn c (List.mem_cons_self ..)
+    have ih' := ih (fun x hx => hn x (List.mem_cons_of_mem _ hx))
+    simp only [List.cons_append]
+    rw [depthAfter.eq_def]
+    split
+    · simp at *
+    · rename_i h; simp at h; exact absurd h.1 hc.1
+    · rename_i h; simp at h; exact absurd h.1 hc.2.1
+    · rename_i h _ _; simp at h; obtain ⟨rfl, rfl⟩ := h; exact ih'
+
+/-- T3b: the text of `open_namespace` opens exactly one bracket per namespace component … -/
+theorem C06_open_namespace_depth (names : List Str) (hn : ∀ n ∈ names, plainName n) (rest : Str) (d : Nat) :
+    depthAfter (openNamespace names ++ rest) d = depthAfter rest (d + names.length) := by
+  have hkw : plainName (lit "namespace ") := by decide
+  have hnl : plainName nl → False := by intro h; exact (h '\n' (by simp [nl])).2.2.2 rfl
+  induction names generalizing d with
+  | nil => simp [openNamespace]
+  | cons n ns ih =>
+    have hn0 := hn n (List.mem_cons_self ..)
+    have ihn := ih (fun x hx => hn x (List.mem_cons_of_mem _ hx))
+    have step : ∀ tail : Str, depthAfter (lit "namespace " ++ n ++ nl ++ ['{'] ++ tail) d = depthAfter tail (d + 1) := by
+      intro tail
+      simp only [List.append_assoc]
+      rw [depthAfter_plain _ hkw, depthAfter_plain _ hn0]
+      simp [nl, depthAfter]
+    cases ns with
+    | nil =>
+      simp only [openNamespace, List.length_singleton]
+      exact step rest
+    | cons m ms =>
+      simp only [openNamespace, List.length_cons]
+      have := step (nl ++ openNamespace (m :: ms) ++ rest)
+      simp only [List.append_assoc] at this ⊢
+      rw [this]
+      simp only [nl, List.cons_append, List.nil_append, depthAfter]
+      have := ihn (d + 1)
+      simp only [List.length_cons] at this
+      rw [this]; congr 1; omega
+
 end NunavutVerif.Deps
